@@ -49,7 +49,7 @@ HAND = [
     "extend interface I implements K @d { g: Int }",
     "{ a } { b } fragment F on T { c }",
 ]
-ACTIONS = ["skip", "break", "remove", "clone", "other", "mark", "false"]
+ACTIONS = ["skip", "break", "remove", "clone", "other", "mark", "false", "same"]
 NONEDIT = ["skip", "break", "false"]
 MARK = ("NON-NODE",)
 
@@ -99,6 +99,8 @@ def apply_action(a, node):
         return other_node()
     if a == "mark":
         return MARK
+    if a == "same":
+        return node  # the very object the handler was given (on leave: the node rebuilt from the edits below)
     raise ValueError(a)
 
 
@@ -127,8 +129,19 @@ def make_visitor(style, table, log):
             if isinstance(cls, type) and issubclass(cls, ast.Node) and name.endswith("Node") and not name.startswith("Const"):
                 k = cls.kind
                 if k and k != "ast" and getattr(ast, "".join(p.capitalize() for p in k.split("_")) + "Node", None) is cls:
-                    ns["enter_" + k] = enter
-                    ns["leave_" + k] = leave
+                    # a kind-specific handler must only ever be given nodes of its kind (also after a replacement by a node of another kind)
+                    def enter_k(self, node, key, parent, path, ancestors, k=k):
+                        if node.kind != k:
+                            log.append(("wrong_handler", "enter_" + k, node.kind))
+                        return enter(self, node, key, parent, path, ancestors)
+
+                    def leave_k(self, node, key, parent, path, ancestors, k=k):
+                        if node.kind != k:
+                            log.append(("wrong_handler", "leave_" + k, node.kind))
+                        return leave(self, node, key, parent, path, ancestors)
+
+                    ns["enter_" + k] = enter_k
+                    ns["leave_" + k] = leave_k
         # kinds without a specific method fall back to the generic ones
         ns.setdefault("enter", enter)
         ns.setdefault("leave", leave)
@@ -185,12 +198,12 @@ def run_table(root, table, style, res, viol, label, keymap=None, compare_result=
         viol("input_tree_modified", label, table, style, "the input tree changed during traversal")
         return False
     acts = set(eff_table.values())
-    editing = bool(acts & {"remove", "clone", "other", "mark"})
+    editing = bool(acts & {"remove", "clone", "other", "mark", "same"})
     if not editing:
         if got is not root:
             viol("non_editing_visit_returns_other_object", label, table, style, f"returned {got!r}")
             return False
-    elif compare_result and not ("break" in acts and want[0] == "break"):
+    elif compare_result:
         if want[0] == "break":
             exp = root
         elif want[0] == "remove":
@@ -236,7 +249,7 @@ def single_tables(root, res, viol, label, styles=STYLES, keymap=None):
 def double_tables(root, res, viol, label):
     pos = positions(root, refv.default_children)
     cells = [(ph, p) for p in pos for ph in ("enter", "leave")]
-    acts = ["skip", "break", "remove", "clone", "other", "mark"]
+    acts = ["skip", "break", "remove", "clone", "other", "mark", "same"]
     for c1, c2 in itertools.combinations(cells, 2):
         for a1 in acts:
             for a2 in acts:
